@@ -247,6 +247,63 @@ class TransformShape:
         return {"name": name}
 
 
+class RotateDegrees:
+    """shape.rotate(angle, degrees=True) with a concrete angle in degrees on catalogue shapes of every kind placed at a
+    symbolic translation: every boundary curve must turn by the same angle (float trigonometry: compared to 1e-6)"""
+
+    nfree = 0
+    ANGLES = {90: (F(0), F(1)), 180: (F(-1), F(0)), 270: (F(0), F(-1)), -90: (F(0), F(-1))}
+
+    def __init__(self, shape, angle=90, level="shape"):
+        self.shape, self.angle, self.level = shape, angle, level
+        self.names = ["tx", "ty"]
+
+    def domain(self, xs):
+        return [xs[0] >= -100, xs[0] <= 100, xs[1] >= -100, xs[1] <= 100]
+
+    def run(self, xs):
+        S = geom.make(self.shape, xs[0], xs[1])
+        before = _flat(geom.describe(S))
+        if self.level == "shape":
+            r = S.rotate(self.angle, degrees=True)
+            same = r is S
+        else:
+            same = all(j.rotate(self.angle, degrees=True) is j for j in S.jordans)
+        after = [[p[0], p[1]] for j in S.jordans for p in geom.jordan_vertices(j)]
+        return {"same": same, "before": [list(p) for p in before], "after": after}
+
+    def oblige(self, tr, out):
+        c, sn = self.ANGLES[self.angle]
+        e = F(1, 10**6)
+        bad = [z3.BoolVal(len(out["before"]) != len(out["after"]) or not out["same"])]
+        if len(out["before"]) == len(out["after"]):
+            for (x, y), (gx, gy) in zip(out["before"], out["after"]):
+                wx, wy = c * x - sn * y, sn * x + c * y
+                bad.append(R.zor(gx - wx > e, wx - gx > e, gy - wy > e, wy - gy > e))
+        return [("a boundary curve is not rotated by the given angle in degrees", z3.Or(bad), {})]
+
+    def on_raise(self, exc, func, line):
+        return "transformation raised " + exc
+
+    def confirm(self, name, xs, outcome, exc):
+        if name.startswith("transformation raised"):
+            return exc is not None, str(exc)
+        if outcome is None:
+            return False, str(exc)
+        c, sn = self.ANGLES[self.angle]
+        e = F(1, 10**6)
+        bad = []
+        for (x, y), (gx, gy) in zip(outcome["before"], outcome["after"]):
+            x, y = val(x), val(y)
+            wx, wy = c * x - sn * y, sn * x + c * y
+            if abs(F(gx) - wx) > e or abs(F(gy) - wy) > e:
+                bad.append(((str(x), str(y)), (float(gx), float(gy)), (str(wx), str(wy))))
+        return bool(bad) or len(outcome["before"]) != len(outcome["after"]) or not outcome["same"], f"{self.shape}+({xs[0]}, {xs[1]}) rotate({self.angle}, degrees=True) at {self.level} level: {bad[:2]}"
+
+    def signature(self, name, xs, outcome, exc):
+        return {"name": name}
+
+
 def _flat(d):
     if d["kind"] == "Simple":
         return [tuple(v) for v in d["v"]]
@@ -270,6 +327,9 @@ def specs(tier):
     for s in ["hollow", "two", "inv:two"] + (["framedot", "inv:hollow", "cw:penta", "ell"] if tier != "quick" else []):
         for k in ("move", "scale"):
             out.append(dict(module=Mo, scenario="TransformShape", params=dict(shape=s, kind=k), time_budget=300 if tier == "quick" else 1800))
+    for s_, ang in [("hollow", 90), ("two", 180), ("penta", 270)] + ([("framedot", -90), ("inv:two", 90), ("opring", 180)] if tier != "quick" else []):
+        for level in ("shape", "curve"):
+            out.append(dict(module=Mo, scenario="RotateDegrees", params=dict(shape=s_, angle=ang, level=level)))
     return out
 
 
